@@ -17,6 +17,7 @@ EnvUA == Env.ua
 CONSTANTS MaxM, MaxU, MaxN, MaxV,   \* length bounds when one field varies (method, url, name, value)
           PairLen,                  \* length bound per field when two fields vary
           H2Len,                    \* length bound for the HTTP/2 header fields
+          MaxD,                     \* length bound for URL material over the path-structure alphabet (dot segments)
           ShardK, ShardS,           \* emission sharding: this run explores share ShardS of ShardK
           EmitOn                    \* TRUE: print every explored request with its expectation
 
@@ -24,9 +25,12 @@ VARIABLES req, vary
 vars == <<req, vary>>
 
 Alphabet == {CR, LF, NUL, DEL, SP, HT, ":", "%", "a", "Z", NA, "#", "?", "/"}
+\* pseudo-field "d": the URL material again, grown over the path-structure alphabet (dot segments, "//")
+DotAlphabet == {".", "/", "a", "?", "#", "%"}
+AlphabetOf(f) == IF f = "d" THEN DotAlphabet ELSE Alphabet
 SymIdx(c) == CASE c = CR -> 0 [] c = LF -> 1 [] c = NUL -> 2 [] c = DEL -> 3 [] c = SP -> 4 [] c = HT -> 5
                [] c = ":" -> 6 [] c = "%" -> 7 [] c = "a" -> 8 [] c = "Z" -> 9 [] c = NA -> 10 [] c = "#" -> 11
-               [] c = "?" -> 12 [] c = "/" -> 13
+               [] c = "?" -> 12 [] c = "/" -> 13 [] c = "." -> 14
 
 NoBody == [kind |-> "none", chunks |-> <<>>]
 Benign == [n |-> <<"Q">>, v |-> <<"a">>, skip |-> FALSE]
@@ -34,8 +38,8 @@ Hdr(n, v) == [n |-> n, v |-> v, skip |-> FALSE]
 Base(level) == [level |-> level, method |-> <<"G","E","T">>, slash |-> TRUE, url |-> <<"a">>,
                 hdrs |-> <<Hdr(<<"X">>, <<"a">>), Benign>>, body |-> NoBody]
 
-Field(r, f) == CASE f = "m" -> r.method [] f = "u" -> r.url [] f = "n" -> r.hdrs[1].n [] f = "v" -> r.hdrs[1].v
-SetField(r, f, s) == CASE f = "m" -> [r EXCEPT !.method = s] [] f = "u" -> [r EXCEPT !.url = s]
+Field(r, f) == CASE f = "m" -> r.method [] f \in {"u", "d"} -> r.url [] f = "n" -> r.hdrs[1].n [] f = "v" -> r.hdrs[1].v
+SetField(r, f, s) == CASE f = "m" -> [r EXCEPT !.method = s] [] f \in {"u", "d"} -> [r EXCEPT !.url = s]
                        [] f = "n" -> [r EXCEPT !.hdrs[1].n = s] [] f = "v" -> [r EXCEPT !.hdrs[1].v = s]
 RECURSIVE Blank(_, _)
 Blank(r, fs) == IF fs = {} THEN r ELSE LET f == CHOOSE x \in fs : TRUE IN Blank(SetField(r, f, <<>>), fs \ {f})
@@ -45,15 +49,16 @@ Pairs == {fs \in SUBSET Fields : Cardinality(fs) = 2}
 Roots ==
     {[r |-> Blank(Base(l), {f}), vary |-> {f}] : l \in {"conn", "pool", "mgr"}, f \in Fields}
     \cup {[r |-> [Blank(Base("conn"), {"u"}) EXCEPT !.slash = FALSE], vary |-> {"u"}]}
+    \cup {[r |-> Blank(Base(l), {"d"}), vary |-> {"d"}] : l \in {"conn", "pool", "mgr"}}
     \cup {[r |-> Blank(Base(l), fs), vary |-> fs] : l \in {"conn", "pool", "mgr"}, fs \in Pairs}
     \cup {[r |-> Blank(Base("h2"), fs), vary |-> fs] : fs \in {{"n"}, {"v"}, {"n", "v"}}}
     \cup {[r |-> Env.seeds[i], vary |-> {}] : i \in 1..Len(Env.seeds)}
 
 Lim(r, fs, f) == IF Cardinality(fs) = 2 THEN PairLen
                  ELSE IF r.level = "h2" THEN H2Len
-                 ELSE CASE f = "m" -> MaxM [] f = "u" -> MaxU [] f = "n" -> MaxN [] f = "v" -> MaxV
+                 ELSE CASE f = "m" -> MaxM [] f = "u" -> MaxU [] f = "n" -> MaxN [] f = "v" -> MaxV [] f = "d" -> MaxD
 
-FOrd(f) == CASE f = "m" -> 1 [] f = "u" -> 2 [] f = "n" -> 3 [] f = "v" -> 4
+FOrd(f) == CASE f = "m" -> 1 [] f = "u" -> 2 [] f = "n" -> 3 [] f = "v" -> 4 [] f = "d" -> 5
 LvlIdx(l) == CASE l = "conn" -> 0 [] l = "pool" -> 1 [] l = "mgr" -> 2 [] l = "h2" -> 3
 IsRoot(r, fs) == \A f \in fs : Field(r, f) = <<>>
 
@@ -61,7 +66,7 @@ Init == \E x \in Roots : req = x.r /\ vary = x.vary
 
 \* a field may grow only while every later varying field is still empty: each request has ONE path,
 \* so the domain is a forest and can be sharded by the first step
-Next == \E f \in vary, c \in Alphabet :
+Next == \E f \in vary : \E c \in AlphabetOf(f) :
            /\ Len(Field(req, f)) < Lim(req, vary, f)
            /\ \A g \in vary : FOrd(g) > FOrd(f) => Field(req, g) = <<>>
            /\ IsRoot(req, vary) => (SymIdx(c) + 5 * LvlIdx(req.level) + 3 * FOrd(f) + Cardinality(vary)) % ShardK = ShardS
